@@ -55,6 +55,15 @@ type replayFile struct {
 		Violation string `json:"violation"`
 	} `json:"expect"`
 	ShrinkExecs int `json:"shrink_execs,omitempty"`
+	// Sequence, when set, replays a worker's history: runs from, from+stride, ... < to of
+	// the given seed and tier in one process; the last one is the recorded run.
+	Sequence *struct {
+		Seed   uint64 `json:"seed"`
+		From   int    `json:"from"`
+		To     int    `json:"to"`
+		Stride int    `json:"stride"`
+		Tier   string `json:"tier"`
+	} `json:"sequence,omitempty"`
 }
 
 func die(code int, f string, a ...interface{}) {
@@ -219,6 +228,15 @@ func loadReplay(p core.Prop, path string) (*replayFile, core.Script) {
 // Exit 0: no violation; 1: violation (signature printed); the driver compares with expect.
 func doReplay(p core.Prop, path string) {
 	rf, sc := loadReplay(p, path)
+	if q := rf.Sequence; q != nil {
+		if q.Stride < 1 {
+			q.Stride = 1
+		}
+		for i := q.From; i < q.To-q.Stride; i += q.Stride {
+			r := core.NewRand(core.Mix(q.Seed, p.ID(), uint64(i)))
+			p.Execute(p.Generate(i, r, q.Tier), false)
+		}
+	}
 	res := p.Execute(sc, true)
 	o := map[string]interface{}{"event_hash": res.EventHash, "expect_event_hash": rf.Expect.EventHash,
 		"expect_signature": rf.Signature, "log": res.LogLines}
